@@ -11,4 +11,9 @@ for c in harness/*/; do
   [ -f "$c/Cargo.lock" ] || cp /repo/Cargo.lock "$c/Cargo.lock"
   (cd "$c" && cargo kani -Z unstable-options -Z stubbing --only-codegen --target-dir "$PWD/../../.cache/target/$n" >/dev/null 2>&1) || echo "warm-up of $n failed (checks will report details)"
 done
+# the two native tests the driver runs for recorded defects in code the solver cannot execute (C05 guard, C08 finding)
+for pair in hemf:known_c08_dimension_key hwriter:regress_c05_forgotten_handle; do
+  c=${pair%%:*}; t=${pair##*:}
+  (cd "harness/$c" && cargo test --offline --no-run --test "$t" --target-dir "$PWD/../../.cache/target/$c-native" >/dev/null 2>&1) || echo "warm-up of native test $t failed (the check reports it as 'not run')"
+done
 exit 0
